@@ -66,8 +66,9 @@ fn thresholds(_t: Tier) -> Vec<(&'static str, u64)> {
 
 const BLOCK_TAGS: [&str; 4] = ["div", "blockquote", "ul", "p"];
 const INLINE_TAGS: [&str; 5] = ["span", "em", "strong", "a", "code"];
-const CLASSES: [&str; 6] = ["c0", "c1", "c2", "Kk", "mainBox", "c1x"];
-const IDS: [&str; 6] = ["i0", "i1", "i2", "Main", "topNav", "i1x"];
+// (names such as sm:warn or w-1/2 are written with CSS escapes in the selector: .sm\:warn)
+const CLASSES: [&str; 9] = ["c0", "c1", "c2", "Kk", "mainBox", "c1x", "sm:warn", "w-1/2", "a.b"];
+const IDS: [&str; 7] = ["i0", "i1", "i2", "Main", "topNav", "i1x", "sec:2"];
 
 struct TreeGen<'a> {
     rng: &'a mut Rng,
